@@ -14,14 +14,76 @@ comparator   : Trace_OtlpGrouping.tla (OtlpModel!Violations) for BOTH directions
 """
 import json
 import os
+import shutil
+import subprocess
+
+import vlib
 
 S = "OtlpGrouping"
+E = "OtelSDK"  # root module of the family: end-to-end contract; its trace spec judges every recorded line
+# modules the harness needs beyond harness/go.mod (until the coordinator adds them there)
+EXTRA_MODS = {
+    "go.opentelemetry.io/otel/exporters/stdout/stdoutlog": ("v0.11.0", "exporters/stdout/stdoutlog"),
+    "go.opentelemetry.io/otel/exporters/stdout/stdoutmetric": ("v1.35.0", "exporters/stdout/stdoutmetric"),
+    "go.opentelemetry.io/otel/exporters/stdout/stdouttrace": ("v1.35.0", "exporters/stdout/stdouttrace"),
+}
+
+
+def build(ctx):
+    """harness/c13 imports the stdout exporters; if harness/go.mod does not list them yet, build with an own
+    copy of it (-modfile) that adds the require/replace lines (the replace root follows VERIF_REPO)."""
+    base = open(os.path.join(vlib.HARNESS, "go.mod")).read()
+    if all((m + " ") in base for m in EXTRA_MODS):
+        return ctx.go_build("c13")
+    vlib.sync_gosum()
+    req = "".join("\t%s %s\n" % (m, v) for m, (v, _) in sorted(EXTRA_MODS.items()))
+    rep = "".join("\t%s => /repo/%s\n" % (m, d) for m, (_, d) in sorted(EXTRA_MODS.items()))
+    txt = base.replace("require (\n", "require (\n" + req, 1).replace("replace (\n", "replace (\n" + rep, 1)
+    txt = txt.replace("=> /repo", "=> " + vlib.REPO)
+    mod = os.path.join(ctx.work, "go.c13.mod")
+    open(mod, "w").write(txt)
+    shutil.copy(os.path.join(vlib.HARNESS, "go.sum"), os.path.join(ctx.work, "go.c13.sum"))
+    out = os.path.join(ctx.work, "bin-c13")
+    env = dict(os.environ)
+    env.update(vlib.GOENV)
+    p = subprocess.run(["go", "build", "-modfile=" + mod, "-tags", "verif", "-o", out, "./c13"], cwd=vlib.HARNESS, env=env,
+                       stdout=subprocess.PIPE, stderr=subprocess.STDOUT, text=True)
+    if p.returncode != 0:
+        raise vlib.Inconclusive("go build c13 (own modfile) failed:\n%s" % p.stdout[-4000:])
+    return out
 SIGNALS = ["trace", "metric", "log", "zipkin"]
 CHUNK = 6000  # trace lines per TLC validation run
 
 
 def tla_set(xs):
     return "{" + ", ".join('"%s"' % x for x in xs) + "}"
+
+
+def spec_files():
+    """modules the OtelSDK specs INSTANCE / EXTEND from the other subsystem directories"""
+    g = os.path.join(vlib.SPECS, S)
+    st = os.path.join(vlib.SPECS, "SpanState")
+    return {"OtlpModel.tla": os.path.join(g, "OtlpModel.tla"), "Pairwise.tla": os.path.join(g, "Pairwise.tla"),
+            "Trace_OtlpGrouping.tla": os.path.join(g, "Trace_OtlpGrouping.tla"),
+            "SpanModel.tla": os.path.join(st, "SpanModel.tla"), "Truncate.tla": os.path.join(st, "Truncate.tla")}
+
+
+def e2e_configs(tier):
+    """API-level programs for real providers (specs/OtelSDK/MC_OtelSDK.tla)"""
+    thorough = tier == "thorough"
+    cfgs = []
+    for sig in ["trace", "metric", "log"]:
+        cfgs.append(dict(name="e2e-fields2-%s" % sig, SIG=sig, MODE="fields2", MAXITEMS=1, RES=["R1"], SCOPES=["S1"],
+                         pipes=6 if thorough else 1))
+        # several providers with equal-but-distinct resources (R1=R2), same attributes / other schema URL (R4);
+        # tracers / meters / loggers of the empty scope, equal-but-distinct scopes (S1=S2), other schema URL (S4)
+        cfgs.append(dict(name="e2e-group-%s" % sig, SIG=sig, MODE="group", MAXITEMS=3 if thorough else 2,
+                         RES=["R1", "R2", "R4"], SCOPES=["S0", "S1", "S2", "S4"], pipes=2 if thorough else 1))
+        if thorough:
+            cfgs.append(dict(name="e2e-group2-%s" % sig, SIG=sig, MODE="group", MAXITEMS=2,
+                             RES=["R3", "R5", "R7"], SCOPES=["S1", "S3", "S5", "S6", "S7"], pipes=3))
+            cfgs.append(dict(name="e2e-fields1-%s" % sig, SIG=sig, MODE="fields1", MAXITEMS=2, RES=["R3"], SCOPES=["S0"], pipes=1))
+    return cfgs
 
 
 def configs(tier):
@@ -85,10 +147,12 @@ def subdiffs(field, want, got):
 def signatures(v, rec, tables, direction):
     """flat signatures (one per differing leaf) of one VIOL record of the trace spec"""
     base = {"dir": direction, "sig": rec["sig"], "proto": v.get("proto"), "kind": v["kind"], "field": v.get("field", "-")}
+    if rec.get("pipe"):
+        base["pipe"] = rec["pipe"].split("-")[0]  # processor / reader of the end-to-end pipeline
     item = next((it for it in rec["batch"] if it["id"] == v.get("id")), None)
     if v["kind"] == "field":
         if rec["sig"] == "metric" and item is not None:
-            base["agg"] = item["fv"].get("agg")
+            base["agg"] = item["fv"].get("agg") or item["fv"].get("kind")
         out = []
         for sub, w, g in subdiffs(v["field"], v.get("want"), v.get("got")):
             s = dict(base)
@@ -110,7 +174,7 @@ def signatures(v, rec, tables, direction):
 
 def run(ctx):
     thorough = ctx.tier == "thorough"
-    binp = ctx.go_build("c13")
+    binp = build(ctx)
 
     # ---- vocabulary from the specification
     r = ctx.tlc(S, "OtlpTables", "OtlpTables.cfg", workers=1, name="tables", count=False, timeout=600)
@@ -123,7 +187,7 @@ def run(ctx):
         json.dump(tables, f)
 
     counters = {}
-    stats = {"edges": 0, "replayed": 0, "random_batches": 0, "trace_lines": 0, "viol_records": 0, "chunks": 0}
+    stats = {"edges": 0, "replayed": 0, "random_batches": 0, "trace_lines": 0, "viol_records": 0, "chunks": 0, "e2e_edges": 0, "e2e_cases": 0}
 
     def absorb(resf, direction):
         res = json.load(open(resf))
@@ -140,7 +204,7 @@ def run(ctx):
             ctx.note_inconclusive(s)
         return res
 
-    pool = {"replay": [], "random": []}  # recorded trace lines waiting for the comparator
+    pool = {"replay": [], "random": [], "e2e": []}  # recorded trace lines waiting for the comparator
 
     def validate(direction, flush=False):
         """TLC (Trace_OtlpGrouping) is the comparator; lines of several configurations are pooled so that one
@@ -152,8 +216,8 @@ def run(ctx):
             cf = os.path.join(ctx.work, "chunk-%s-%d.ndjson" % (direction, stats["chunks"]))
             with open(cf, "w") as f:
                 f.write("\n".join(chunk) + "\n")
-            viols, accepted = ctx.validate_trace(S, "Trace_OtlpGrouping", "Trace_OtlpGrouping.cfg", cf, timeout=3600,
-                                                 name="trace-%s-%d" % (direction, stats["chunks"]))
+            viols, accepted = ctx.validate_trace(E, "Trace_OtelSDK", "Trace_OtelSDK.cfg", cf, timeout=3600,
+                                                 name="trace-%s-%d" % (direction, stats["chunks"]), extra_files=spec_files())
             stats["trace_lines"] += accepted
             stats["viol_records"] += len(viols)
             recs = {}
@@ -200,12 +264,54 @@ def run(ctx):
     pool["random"] += open(trace).read().splitlines()
     validate("random", flush=True)
 
+    # ---- end to end: real providers -> processors / readers -> exporters -> collector (specs/OtelSDK)
+    for c in e2e_configs(ctx.tier):
+        d = {"SIG": c["SIG"], "MODE": c["MODE"], "MAXITEMS": c["MAXITEMS"], "RES": tla_set(c["RES"]), "SCOPES": tla_set(c["SCOPES"])}
+        r = ctx.tlc(E, "MC_OtelSDK", "MC_OtelSDK.cfg", defines=d, want_edges=True, name=c["name"], timeout=3000,
+                    extra_files=spec_files())
+        stats["e2e_edges"] += r.get("edges", 0)
+        trace = os.path.join(ctx.work, "%s.ndjson" % c["name"])
+        resf = os.path.join(ctx.work, "%s.json" % c["name"])
+        ctx.run([binp, "e2e", "-tables", tables_f, "-edges", r["edges_file"], "-pipes", str(c["pipes"]), "-name", c["name"],
+                 "-out", trace, "-res", resf], timeout=3000)
+        res = absorb(resf, "e2e")
+        stats["e2e_cases"] += res["executed"]
+        pool["e2e"] += open(trace).read().splitlines()
+        os.remove(trace)
+        validate("e2e")
+    trace = os.path.join(ctx.work, "e2e-random.ndjson")
+    resf = os.path.join(ctx.work, "e2e-random.json")
+    ctx.run([binp, "e2e", "-tables", tables_f, "-n", str(300 if thorough else 25), "-pipes", str(3 if thorough else 2),
+             "-out", trace, "-res", resf], timeout=3000)
+    res = absorb(resf, "e2e")
+    stats["e2e_cases"] += res["executed"]
+    pool["e2e"] += open(trace).read().splitlines()
+    validate("e2e", flush=True)
+    ec = counters.get("e2e", {})
+    for k in ["pipe_" + p for p in ("bsp-grpc", "ssp-http", "bsp-stdout", "ssp-grpc", "bsp-http", "ssp-stdout", "periodic-grpc",
+                                     "manual-http", "periodic-stdout", "manual-grpc", "periodic-http", "manual-stdout", "batch-grpc",
+                                     "simple-http", "batch-stdout", "simple-grpc", "batch-http", "simple-stdout")] + \
+            ["batches_equal_distinct_resources", "batches_equal_distinct_scopes", "items_empty_scope"]:
+        if not ec.get(k):
+            ctx.note_inconclusive("vacuity: end-to-end programs never reached %s" % k)
+
+    # ---- observations outside the verdict (inputs that are not legal for the data model)
+    pf = os.path.join(ctx.work, "probe.json")
+    ctx.run([binp, "probe", "-out", pf], timeout=600)
+    ctx.extra["observations"] = {"invalid_utf8_strings": json.load(open(pf)),
+                                 "stdout_exporters": "a NaN / Inf value makes the stdout exporters return an error for the whole batch "
+                                                     "(encoding/json); such cases have no stdout observation (counters stdout_refused_*)"}
+
     # ---- vacuity: the random driver reached the regimes the statement quantifies over
     rc = counters.get("random", {})
     for k in ("batches_equal_distinct_resources", "batches_equal_distinct_scopes", "batches_multi_group", "batches_over_30_items",
               "items_empty_scope", "class_cbig", "class_tpre", "class_tzero", "class_kmax", "class_vnan", "class_bdeep", "class_abound"):
         if not rc.get(k):
             ctx.note_inconclusive("vacuity: random batches never reached regime %s" % k)
+    for k in ("stdout_observed_trace", "stdout_observed_metric", "stdout_observed_log"):
+        # random batches nearly always hold a NaN / Inf somewhere (no JSON): the exporter-level direction as a whole counts
+        if not (rc.get(k, 0) + counters.get("replay", {}).get(k, 0)):
+            ctx.note_inconclusive("vacuity: the stdout exporters never printed a %s batch" % k[16:])
     ctx.extra["counters"] = counters
     ctx.extra["stats"] = stats
     ctx.extra["rule"] = ("edges: every state of OtlpGrouping.tla for the listed configs is one batch, replayed through the real "
@@ -222,5 +328,11 @@ def run(ctx):
         "histogram sum/min/max are doubles in OTLP: integer inputs are compared as the nearest double",
         "Zipkin: names compared in Zipkin's lower-case normal form, times at microsecond resolution; span start times before "
         "1970 and negative durations are not representable in the Zipkin model and are not generated",
-        "strings that are not valid UTF-8 and NaN-valued resource/scope attributes (C05) are not generated",
+        "strings that are not valid UTF-8 are not legal attribute/body strings; what the exporters do with them is recorded as an "
+        "observation (extra.observations), not judged; NaN-valued resource/scope attributes (C05) are not generated",
+        "stdout exporters: compared only in the fields their JSON carries (not: resource schema URL, int64/float64 of metric numbers, "
+        "the aggregation kind of a metric without data points)",
+        "end to end: limits at their defaults (C04/C17), quiescent flush points only (C01/C06); how many requests/groups the processors "
+        "cut and the order of arrival are not judged; metric timestamps are only checked to be set and ordered; the exponential bucket "
+        "layout is C07's subject; the extra export of PeriodicReader.Shutdown is not part of the flush point",
     ]
